@@ -22,6 +22,7 @@ _EXC = {"cls": Boom}
 
 
 _COUNTER = {"n": 0}
+_WALK_DEPTH = {"d": 2}
 
 
 class FailImage(c03.StubImage):
@@ -69,7 +70,7 @@ def run_stage(stage, par, fail_at, chooser=None, real=False):
                 maybe_fail((pos.n, pos.x, pos.y))
             case.build().visit_leaves(cb, parallel=par)
     elif stage == "walk":
-        case = pyrgen.PyrCase(2, "g")
+        case = pyrgen.PyrCase(_WALK_DEPTH["d"], "g")
 
         def fn():
             def cb(pos):
@@ -271,6 +272,25 @@ def main():
                         h.violation(f"{stage}:{'hang' if kind == 'hang' else 'swallowed'}",
                                     f"walk with {par} workers, item {fa} raising {_EXC['cls'].__name__}, under a priority / delay-after-report schedule: {'did not terminate (' + detail + ')' if kind == 'hang' else 'returned normally although an item failed'}",
                                     input={"stage": stage, "workers": par, "fail_at": str(fa), "exception": _EXC["cls"].__name__, "choices": sim.choices[:400], "trace": sim.trace[:100]})
+            # a deeper walk (depth 3: sixteen seed-level tiles, more reports outstanding than the done queue holds) with an EARLY failure:
+            # the dispatcher must keep draining the reports — neither swallow the error nor leave the workers blocked
+            if stage == "walk":
+                _WALK_DEPTH["d"] = 3
+                try:
+                    for xi in range(8 if h.deep else 3):
+                        par = rng.choice([2, 3])
+                        fa = [(2, 0, 0), 0, (2, 3, 1)][xi % 3]
+                        chooser = simmp.RandomChooser(rng.randrange(2 ** 31), timeout_weight=rng.choice([0.02, 0.2]))
+                        kind, detail, sim = run_stage(stage, par, fa, chooser=chooser)
+                        h.case((stage, "deep-early", par, str(fa), tuple(sim.choices)))
+                        h.count("stage", "walk:depth3-early-failure")
+                        h.count("outcome", kind)
+                        if kind != "raised":
+                            h.violation(f"{stage}:{'hang' if kind == 'hang' else 'swallowed'}",
+                                        f"walk of a depth-3 pyramid with {par} workers, item {fa} raising {_EXC['cls'].__name__}: {'did not terminate (' + detail + ')' if kind == 'hang' else 'returned normally although an item failed'}",
+                                        input={"stage": stage, "depth": 3, "workers": par, "fail_at": str(fa), "choices": sim.choices[:400], "trace": sim.trace[:100]})
+                finally:
+                    _WALK_DEPTH["d"] = 2
             # an input image that cannot be LOADED (the error is raised in the parent, by the collection's generator)
             if stage in ("multi_tan", "multi_wcs"):
                 for li in range(12 if h.deep else 5):
